@@ -49,7 +49,15 @@ def main(a):
             'ran': []}
     try:
         env = dict(os.environ, PYTHONPATH=wt, PYTHONDONTWRITEBYTECODE='1')
-        rc0, o0 = sh('/venv/bin/python %s' % demo, cwd=wt, env=env)
+        # demonstrations may name their author's worktree: point them at this scratch worktree
+        import re as _re
+        txt = open(demo, encoding='utf-8').read()
+        txt2 = _re.sub(r'/tmp/s[ab]-C[0-9]+', wt, txt)
+        # ... or locate the tree relative to their own file (<tree>/_out/demo.py): run a copy from <wt>/_out/
+        os.makedirs(os.path.join(wt, '_out'), exist_ok=True)
+        demo_run = os.path.join(wt, '_out', os.path.basename(demo))
+        open(demo_run, 'w', encoding='utf-8').write(txt2)
+        rc0, o0 = sh('/venv/bin/python %s' % demo_run, cwd=wt, env=env)
         meta['demo_on_clean_tree_exit'] = rc0
         rc, o = sh('git apply %s' % diff, cwd=wt)
         if rc:
@@ -62,7 +70,7 @@ def main(a):
         rc, o = sh('/venv/bin/python -m pytest -q -p no:cacheprovider --timeout=900 2>&1 | tail -3', cwd=wt)
         meta['tests'] = o.strip().splitlines()[-1] if o.strip() else ''
         meta['tests_pass'] = '385 passed' in o
-        rc1, o1 = sh('/venv/bin/python %s' % demo, cwd=wt, env=env)
+        rc1, o1 = sh('/venv/bin/python %s' % demo_run, cwd=wt, env=env)
         meta['demo_with_change_exit'] = rc1
         meta['demo_output'] = o1.strip()[-600:]
         meta['confirmed'] = bool(meta['tests_pass'] and rc1 != 0 and rc0 == 0)
